@@ -1,6 +1,7 @@
 package rules
 
 import (
+	"fmt"
 	"go/ast"
 	"go/types"
 	"sort"
@@ -38,7 +39,7 @@ var nonPointerOperands = map[string]string{
 }
 
 func c11(c *core.Ctx, r *core.Report) {
-	r.Explain("R11.gen: in pointer.genInstr every ssa.Instruction kind has a case (panicking default; MultiConvert by build mode); the case of every pointer-relevant kind emits at least one constraint (copy/genLoad/genStore/addressOf/genOffsetAddr/genCall/typeAssert/genConv) and reads each pointer-carrying operand of the kind (operand table from go/ssa; reads counted in the case body and in the call-graph cone of the helpers it calls); kinds that may stay empty carry upstream's reason. R11.noeffect: the fork's soundness switch Config.NoEffectFunctions is written only by AddNoEffectFunction, which is called only from DoPointerAnalysis inside the loop over PointerConfig.UnsafeNoEffectFunctions, and findSummary is its only reader. R11.queries: query registration covers Params, FreeVars and Operands() of every instruction of every filtered function.")
+	r.Explain("R11.gen: in pointer.genInstr every ssa.Instruction kind has a case (panicking default; MultiConvert by build mode); the case of every pointer-relevant kind emits at least one constraint (copy/genLoad/genStore/addressOf/genOffsetAddr/genCall/typeAssert/genConv) and reads each pointer-carrying operand of the kind (operand table from go/ssa; reads counted in the case body and in the call-graph cone of the helpers it calls); kinds that may stay empty carry upstream's reason. R11.noeffect: the fork's soundness switch Config.NoEffectFunctions is written only by AddNoEffectFunction, which is called only from DoPointerAnalysis inside the loop over PointerConfig.UnsafeNoEffectFunctions, and findSummary is its only reader. R11.sizeof: in genInstr a value copy whose size is a literal constant occurs only in the arm of a kind whose value is always one node (interface, slice, pointer, function); any other arm must size the copy by the value's type. R11.underlying: see underlyingRule. R11.queries: query registration covers Params, FreeVars and Operands() of every instruction of every filtered function.")
 	r.NotDecided("aliasing soundness itself (agreement with runtime aliasing needs ground truth); the solver and HVN optimisation.")
 	d := c.FindDispatch("internal/pointer", "analysis.genInstr", core.SSAPath, "Instruction")
 	if d == nil {
@@ -123,6 +124,58 @@ func c11(c *core.Ctx, r *core.Report) {
 				r.Fail("R11.operands", okey, c.Pos(cl.Clause.Pos()), "pointer-carrying operand "+kind+"."+op+" is never read when generating constraints for "+kind+": values flowing through it are missing from points-to sets")
 			}
 		}
+	}
+	// ---- R11.sizeof: a value copy with the constant size 1 is only right for kinds whose value is always a single node
+	singleNode := map[string]string{
+		"ChangeInterface":     "interface value: one node",
+		"Slice":               "slice / string / pointer-to-array value: one node",
+		"SliceToArrayPointer": "pointer value: one node",
+		"MakeClosure":         "function value: one node",
+		"Panic":               "panic operand is an interface: one node",
+	}
+	nCopy := 0
+	seenClause := map[*ast.CaseClause]bool{}
+	for _, im := range d.Impls {
+		cl := d.Switch.ClauseFor(im)
+		if cl == nil || seenClause[cl.Clause] {
+			continue
+		}
+		seenClause[cl.Clause] = true
+		var kinds []string
+		for _, t := range cl.Types {
+			kinds = append(kinds, strings.TrimPrefix(core.ShortType(t), "*ssa."))
+		}
+		k := 0
+		for _, st := range cl.Clause.Body {
+			ast.Inspect(st, func(n ast.Node) bool {
+				call, ok := n.(*ast.CallExpr)
+				if !ok || len(call.Args) != 3 {
+					return true
+				}
+				if o := core.CalleeObj(call, info); o == nil || o.Name() != "copy" || o.Pkg() == nil || !strings.HasSuffix(o.Pkg().Path(), "internal/pointer") {
+					return true
+				}
+				nCopy++
+				lit, ok := ast.Unparen(call.Args[2]).(*ast.BasicLit)
+				if !ok {
+					return true
+				}
+				k++
+				okAll := lit.Value == "1"
+				for _, kind := range kinds {
+					if singleNode[kind] == "" {
+						okAll = false
+					}
+				}
+				r.Check(okAll, "R11.sizeof", fmt.Sprintf("%s|%s|copy#%d", d.Func, strings.Join(kinds, ","), k), c.Pos(call.Pos()),
+					"constant-size copy in the arm of a kind whose value is always a single node",
+					"the value of a "+strings.Join(kinds, "/")+" instruction can be a struct or array (several nodes) but only "+lit.Value+" node is copied: pointers held in the remaining fields/elements are missing from the result's points-to sets (missed aliases)")
+				return true
+			})
+		}
+	}
+	if nCopy < 8 {
+		r.Fail("infra.floor", "R11.sizeof|copies", "", fmt.Sprintf("only %d copy constraints found in genInstr arms", nCopy))
 	}
 	r.Floor("R11.gen", 36, "37 kinds")
 	r.Floor("R11.operands", 30, "pointer-relevant operands")
@@ -256,4 +309,15 @@ func c11(c *core.Ctx, r *core.Report) {
 	} else {
 		r.Fail("infra.anchor-unresolved", "R11.queries|addInstructionQuery", "", "not found")
 	}
+	// ---- R11.underlying
+	underlyingRule(c, r, "R11.underlying", func(t core.TypeTest) bool {
+		if t.PkgRel != "internal/pointer" {
+			return false
+		}
+		// reflection modelling and the query-expression parser are outside the property's fragment
+		return !strings.Contains(t.Pos, "/reflect.go:") && !strings.Contains(t.Pos, "/query.go:") && !strings.Contains(t.Pos, "/print.go:")
+	}, map[string]string{
+		"internal/pointer.*pointer.analysis.funcResults|n.typ.(*types.Signature)":        "typ of a function object node is fn.Signature (set by makeFunctionObject), an unnamed signature",
+		"internal/pointer.*pointer.hvn.markIndirectNodes|h.a.nodes[id].typ.(*types.Array)": "node types come from flatten, whose *types.Named arm recurses on Underlying(): an array identity node carries the unnamed array type",
+	}, "no constraint is generated: the values read are missing from points-to sets (missed aliases)")
 }
